@@ -367,8 +367,16 @@ func (cl *dsCluster) sync(in *dsState) interface{} {
 			cur[in.New.Name] = in.New.Spec
 		}
 		cl.cs.ClearActions()
-		dc := deployment.VerifNewController(cl.cs, &record.FakeRecorder{},
-			appslisters.NewDeploymentLister(cl.dIdx), appslisters.NewReplicaSetLister(cl.rsIdx), d)
+		// the factory is shared by the controller's concurrent workers: another worker builds the controller of ANOTHER
+		// Deployment (a wildly different strategy) from it before this one syncs - that must be invisible here (C19)
+		other := d.DeepCopy()
+		other.Name, other.UID = "other", "uid-other"
+		if other.Annotations == nil {
+			other.Annotations = map[string]string{}
+		}
+		other.Annotations[v1alpha1.DeploymentStrategyAnnotation] = `{"rollingStyle":"Partition","rollingUpdate":{"maxUnavailable":"100%","maxSurge":"100%"},"paused":false,"partition":"100%"}`
+		dc := deployment.VerifNewControllerShared(cl.cs, &record.FakeRecorder{},
+			appslisters.NewDeploymentLister(cl.dIdx), appslisters.NewReplicaSetLister(cl.rsIdx), d, other)
 		if dc == nil {
 			return J{"skipped": true}
 		}
